@@ -252,9 +252,13 @@ def balanced(rng, depth=0, semis=False, blocks=True, least=0):
 
 
 class Garbage:
-    def __init__(self, text, kind):
+    def __init__(self, text, kind, invalid=False):
         self.text = text
         self.kind = kind
+        # invalid by construction (CSS 2.1 4.1.7/4.1.8: a declaration starts with an identifier, a selector
+        # cannot start with these characters): the judge then does not ask the implementation whether the
+        # garbage is a construct, and expects nothing of it in the DOM
+        self.invalid = invalid
 
 
 BAD_SELECTORS = ['$x', 'a!b', '..x', 'a:::b', 'a[=]', '#', '1a', 'a,,b', '(x)', 'a b !', '%', 'a >', '> > a',
@@ -266,6 +270,10 @@ BAD_DECLS = ['color red', 'color:', ': red', '(x): 1', '[x]:1', '{a:b}', 'x(y): 
              '(x) ! color: red', '*zoom ! color: red', ', ,', 'color @x: red', 'color: red !important @x',
              'url(x): 1', 'color:red !', '-: 1', 'f(', ]
 BAD_DECLS = [d for d in BAD_DECLS if d != 'f(']
+# no colon / no value / no name / not starting with an identifier / two names: never a declaration
+INVALID_DECLS = {'color red', 'color:', ': red', '(x): 1', '[x]:1', '{a:b}', '*zoom: 1', '!important', '= 1',
+                 '1px: 2', '#a: b', '"s": 1', 'a b: c', '(x) ! color: red', '*zoom ! color: red', ', ,', 'color'}
+INVALID_SELECTORS = {'$x', 'a!b', '..x', '#', '1a', '(x)', '%', ':', '"s"', 'a b !'}
 MISPLACED = ['@import "late.css";', '@charset "latin-1";', '@namespace q "http://late/";', '@IMPORT url(l.css);']
 
 
@@ -275,19 +283,24 @@ def gen_garbage(rng, where):
     if base == 'decl':
         r = rng.random()
         if r < 0.5:
-            return Garbage(rng.choice(['', ' ']) + rng.choice(BAD_DECLS) + rng.choice(['', ' ']) + ';', 'decl:list')
+            d = rng.choice(BAD_DECLS)
+            return Garbage(rng.choice(['', ' ']) + d + rng.choice(['', ' ']) + ';', 'decl:list',
+                           invalid=d in INVALID_DECLS)
         if r < 0.85:
             first = rng.choice(['(', '[', '{', 'f(', ':', '!', '1', '#x', '"s"', '*', '$', 'x', 'x y', ','])
             close = {'(': ')', '[': ']', '{': '}', 'f(': ')'}.get(first, '')
             body = balanced(rng, 1) if close else ''
-            return Garbage(' ' + first + body + close + ' ' + balanced(rng, 0) + ';', 'decl:soup')
+            text = ' ' + first + body + close + ' ' + balanced(rng, 0) + ';'
+            # not starting with an identifier: no declaration
+            return Garbage(text, 'decl:soup', invalid=first not in ('x', 'x y', 'f('))
         return Garbage(' ' + rng.choice(UNKNOWN_AT) + ' ', 'decl:at-rule')
     # statement level
     r = rng.random()
     if r < 0.4:
         sel = rng.choice(BAD_SELECTORS_BALANCED)
         body = ';'.join(n + ':' + v for n, v in [rng.choice(DECLS) for _ in range(rng.choice([0, 1, 2]))])
-        return Garbage(' ' + sel + rng.choice(['', ' ']) + '{' + body + '}' + rng.choice(['', ' ']), 'stmt:bad-selector')
+        return Garbage(' ' + sel + rng.choice(['', ' ']) + '{' + body + '}' + rng.choice(['', ' ']), 'stmt:bad-selector',
+                       invalid=sel in INVALID_SELECTORS)
     if r < 0.65:
         return Garbage(' ' + rng.choice(UNKNOWN_AT) + ' ', 'stmt:unknown-at')
     if r < 0.8 and where.endswith('+body') and base == 'stmt':
@@ -307,6 +320,8 @@ def residue_of(g, where, parse_real):
     """what the garbage alone leaves in the DOM (the damaged construct itself), or None if the implementation
     takes the garbage for (or finds inside it) a valid construct"""
     base = where.split('+')[0]
+    if g.invalid:
+        return []
     if base == 'decl':
         dom = parse_real('x{' + g.text + '}')
         if isinstance(dom, tuple):
